@@ -71,6 +71,7 @@ def tree_hash():
 _VARIANTS = {
     # name: (build type, extra C flags, extra linker flags, extra cmake args)
     "hooks": ("RelWithDebInfo", "-Wno-error -D%s" % GUARD, "", []),
+    "tests": ("RelWithDebInfo", "-Wno-error -D%s" % GUARD, "", ["-DBUILD_TESTING=ON"]),
     "asan": ("Debug",
              "-Wno-error -D%s -fsanitize=address,undefined -fno-sanitize-recover=undefined "
              "-fno-omit-frame-pointer -O1" % GUARD,
